@@ -45,6 +45,17 @@ def run(ctx):
             if not oracle.divergent_subsets(table):
                 cases.append(dict(edges=edges, weights=w, massive=massive, ext=ext, D=D, table=table, dod=dod, loops=Lf, accepted=True,
                                   name="tiny_weight"))
+    # huge propagator powers (products of weights overflow although every J is an ordinary number), and powers that differ only beyond
+    # single precision
+    for edges, w, massive, ext, D in (([(0, 1), (1, 2), (2, 3), (3, 4), (4, 0)], [1e80, 1e80, 1e80, 1e80, 1.0], [True] * 5, [0, 1, 2, 3, 4], 3),
+                                      ([(0, 1), (1, 2), (2, 0)], [1e150, 1e160, 2.0], [True] * 3, [0, 1, 2], 3),
+                                      ([(0, 1), (1, 2), (2, 0)], [2.0 / 3, 2.0 / 3 + 3e-9, 0.7], [False] * 3, [0, 1, 2], 3),
+                                      ([(0, 1), (0, 1)], [1.0 + 2e-9, 1.0, ], [True, True], [0, 1], 3),
+                                      ([(0, 1), (1, 2), (2, 3), (3, 0)], [0.8, 0.8 * (1 + 4e-8), 0.8 * (1 - 3e-8), 0.9], [False] * 4, [0, 1, 2, 3], 3)):
+        dod, Lf, table = oracle.table_oracle(edges, w, massive, ext, D)
+        if not oracle.divergent_subsets(table):
+            cases.append(dict(edges=edges, weights=w, massive=massive, ext=ext, D=D, table=table, dod=dod, loops=Lf, accepted=True,
+                              name="extreme_or_nearly_equal_weights"))
     # parallel propagators with EQUAL powers of which only some are massive (indistinguishable by end points and weight, not by mass)
     for _ in range(6 if ctx.quick else 40):
         name = rng.choice(["bubble", "sunrise", "banana4", "bubble_chain", "bubble_leg", "box_doubled"])
@@ -132,6 +143,8 @@ def run(ctx):
         pole_dist = abs(dodf - round(dodf)) if dodf < 0.5 else 1.0
         if dodf < 0.5 and pole_dist < 1e-6:
             ctx.count("dod_at_gamma_pole_skipped"); continue
+        if dodf > 170 or max(c["weights"]) > 170:
+            ctx.count("gamma_overflows_f64(normalisation not representable)_skipped"); continue
         cx = cached_oracle(c, Jx[-1])
         # Gamma(dod) is evaluated at the ROUNDED dod: near 0 (and near other arguments where Gamma varies fast) the rounding of
         # dod = sum w - L D/2 is amplified by |psi(dod)| ~ 1/|dod|
